@@ -19,7 +19,15 @@ from typing import Any
 
 import yaml
 
-from octave_mcp.core.ast_nodes import Assignment, Block, Document, InlineMap, ListValue, LiteralZoneValue
+from octave_mcp.core.ast_nodes import (
+    Assignment,
+    Block,
+    Document,
+    HolographicValue,
+    InlineMap,
+    ListValue,
+    LiteralZoneValue,
+)
 from octave_mcp.core.gbnf_compiler import GBNFCompiler, compile_gbnf_from_meta
 from octave_mcp.core.parser import parse
 from octave_mcp.core.projector import project
@@ -76,6 +84,13 @@ def _convert_value(value: Any) -> Any:
         return [_convert_value(item) for item in value.items]
     elif isinstance(value, InlineMap):
         return {k: _convert_value(v) for k, v in value.pairs.items()}
+    elif isinstance(value, HolographicValue):
+        # I3: a holographic pattern is exported as its canonical text (what the OCTAVE
+        # view shows), not as a Python object the serialisers cannot represent
+        return value.raw_pattern
+    elif isinstance(value, dict):
+        # nested META block (GH#287): convert the nested values as well
+        return {k: _convert_value(v) for k, v in value.items()}
     else:
         return value
 
@@ -128,6 +143,12 @@ def _format_markdown_value(value: Any) -> str:
         # Format inline map as key: value pairs
         pairs = [f"{k}: {_format_markdown_value(v)}" for k, v in value.pairs.items()]
         return ", ".join(pairs)
+    elif isinstance(value, HolographicValue):
+        # I3: the canonical text of the pattern, never the default object repr
+        return value.raw_pattern
+    elif isinstance(value, dict):
+        # nested META block (GH#287): key: value pairs, values formatted recursively
+        return ", ".join(f"{k}: {_format_markdown_value(v)}" for k, v in value.items())
     else:
         # Regular values are stringified directly
         return str(value)
